@@ -72,7 +72,23 @@ def run_one(ctl: explorer.Ctl, cfg: Dict[str, Any]) -> Dict[str, Any]:
             if raise_at is not None and i == raise_at:
                 raise RuntimeError("callback failed")
 
+        def wire_token():
+            """The progress token as it actually went out on the wire (read from the written request)."""
+            if "wire_req" not in st:
+                try:
+                    while True:
+                        m = st["recv_w"].receive_nowait()
+                        st.setdefault("early", []).append(m)
+                        if getattr(m, "method", None) == "tools/call" and "wire_req" not in st:
+                            st["wire_req"] = m.model_dump(exclude_none=True)
+                except Exception:
+                    pass
+            req = st.get("wire_req") or {}
+            return ((req.get("params") or {}).get("_meta") or {}).get("progressToken")
+
         def deliver(wire, tag):
+            if tag in ("M", "M0"):
+                wire = dict(wire, params=dict(wire["params"], progressToken=wire_token()))
             arrivals.append((loop.time(), tag))
             try:
                 st["send_r"].send_nowait(parse_message(wire))
@@ -87,9 +103,17 @@ def run_one(ctl: explorer.Ctl, cfg: Dict[str, Any]) -> Dict[str, Any]:
             token.cancel()
 
         async def main():
-            send_w, recv_w = anyio.create_memory_object_stream(math.inf)
+            wb = cfg.get("write_buffer")
+            send_w, recv_w = anyio.create_memory_object_stream(math.inf if wb is None else wb)
             send_r, recv_r = anyio.create_memory_object_stream(math.inf)
             st["send_r"], st["recv_w"] = send_r, recv_w
+            if wb == 0:
+                # the peer takes the request and then stops reading (congested outgoing side)
+                async def take_one():
+                    m = await recv_w.receive()
+                    st.setdefault("early", []).append(m)
+                import asyncio as _a
+                st["peer"] = _a.ensure_future(take_one())
             t0 = loop.time()
             resp = {"jsonrpc": "2.0", "id": RID, "result": {"ok": True}}
 
@@ -131,7 +155,13 @@ def run_one(ctl: explorer.Ctl, cfg: Dict[str, Any]) -> Dict[str, Any]:
             if use_cb:
                 kw["progress_callback"] = cb
             try:
-                val = await send_message(recv_r, send_w, "tools/call", {"name": "t"}, **kw)
+                pm = cfg.get("params_meta")
+                call_params: Dict[str, Any] = {"name": "t"}
+                if pm == "stale-token":
+                    call_params["_meta"] = {"progressToken": "stale-from-an-earlier-call", "trace": "x"}
+                elif pm == "other-meta":
+                    call_params["_meta"] = {"trace": "x"}
+                val = await send_message(recv_r, send_w, "tools/call", call_params, **kw)
                 out = ("result", sched.jsonable(val))
             except CancelledError as e:
                 out = ("cancelled", str(e))
@@ -146,7 +176,7 @@ def run_one(ctl: explorer.Ctl, cfg: Dict[str, Any]) -> Dict[str, Any]:
         c_eff = c
         status, val = loop.run_main(main())
         errors = loop.collect_errors()
-        writes = []
+        writes = list(st.get("early", []))
         try:
             while True:
                 writes.append(st["recv_w"].receive_nowait())
@@ -190,6 +220,14 @@ def run_one(ctl: explorer.Ctl, cfg: Dict[str, Any]) -> Dict[str, Any]:
     cancelled_notes = [w for w in wd if isinstance(w, dict) and w.get("method") == "notifications/cancelled"]
     requests = [w for w in wd if isinstance(w, dict) and w.get("method") == "tools/call"]
 
+    congested = cfg.get("write_buffer") is not None
+    if congested:
+        if okind == "result":
+            bad("result-without-response", "result returned although no response was sent")
+        elif okind not in ("timeout", "cancelled"):
+            bad("unexpected-outcome", f"{okind}: {oval}")
+        obs["violations"] = viol
+        return obs
     if c_eff == "pre":
         if okind != "cancelled":
             bad("pre-cancel-not-raised", "token was cancelled before the call but the call did not raise CancelledError")
@@ -311,6 +349,8 @@ def configs_for(tier: str):
                     for ra in [None] + list(range(nmatch)):
                         for end in ("response", "timeout", "cancel"):
                             cfg = {"T": T, "traffic": "none", "progress": prog, "cb": True, "cb_raise_at": ra}
+                            if L and nmatch:
+                                cfg["params_meta"] = ["stale-token", "other-meta", None][(L + len(g)) % 3]
                             if end == "response":
                                 cfg.update(response=[0.8, 0], cancel=None)
                             elif end == "cancel":
@@ -326,6 +366,14 @@ def configs_for(tier: str):
             for r in [None] + grid(T, fine):
                 g.append({"T": T, "traffic": tr, "cancel": None, "response": r, "token": False})
     parts["deadline-only"] = g
+    # (4) congested outgoing side: the cancelled notification cannot be written; the deadline must still hold
+    g = []
+    for T in (0.3, 1.0, 1.2):
+        for wb in (0, 1):
+            for c in [[0.1, 0], [0.25, 0], [T - 0.05, 0]]:
+                for tr in ("none", "burst"):
+                    g.append({"T": T, "traffic": tr, "cancel": c, "response": None, "write_buffer": wb})
+    parts["congested-write-stream"] = g
     return parts
 
 
@@ -335,7 +383,7 @@ def run(tier: str, only=None) -> core.Result:
         if only and name not in only:
             continue
         out = explorer.explore(RUN, cfgs, fidelity=True)
-        sched.absorb(res, name, RUN, out, cfgs)
+        sched.absorb(res, name, RUN, out, cfgs, min_outcomes=1 if name == "congested-write-stream" else 2)
     res.coverage["exhaustive"] = True
     res.coverage["rule"] = (
         "every placement of {cancel, matching response} on the grid {10 ms steps within +-30 ms (quick +-10 ms) of each 0.5 s "
